@@ -75,6 +75,11 @@ theorem wuint32_dec : Gen.wuint32.dec = decU32 := by
     | [_, _], h => simp at h
     | [_, _, _], h => simp at h
 
+/-- every `fillProp` (seven wire types) returns 0 when it writes nothing and `i - n` — the number of bytes it wrote —
+otherwise: the contract `Filler.seq` and `fillProp` of the model give it -/
+theorem fillProp_tails : Gen.fillPropTails.length = 7 ∧ Gen.fillPropTails.all (fun e => e.2 == (0, true)) = true := by
+  decide
+
 theorem complete : Gen.untranslatedWire = [] := by decide
 
 end Mq.Tie.Wire
